@@ -49,7 +49,7 @@ def _lab(r, *extra):
 
 
 PROPS["C05"] = {
-    "theorem_modules": ["Sidetree.Props.C05", "Sidetree.Props.C05Num"],
+    "theorem_modules": ["Sidetree.Props.C05", "Sidetree.Props.C05Num", "Sidetree.Props.C05Spelling"],
     "prescribes": "Sidetree.jcs / Sidetree.transform (Props.C05: normalize_obj_sorted, member_order_irrelevant, escape_minimal, es6Notation)",
     "obligations": [{"name": "Shape_Jcs", "facts": "module:Jcs"}, 
         {"name": "C05_fixedRange", "facts": ["es6FixedRange"]},
@@ -57,7 +57,10 @@ PROPS["C05"] = {
         {"name": "C05_escapes", "facts": ["jcsAsciiEscapes", "jcsBinaryEscapes", "jcsControlFormat"]},
     ],
     "streams": [{"gen": "C05", "quick": 4000, "thorough": 120000}, {"gen": "C05num", "quick": 20000, "thorough": 2000000}],
-    "label": lambda r: _lab(r, (r["model"].get("bytes") or r["model"]).get("class")),
+    "label": lambda r: _lab(r, (r["model"].get("bytes") or r["model"]).get("class")) +
+                       ("" if (r["model"].get("bytes") or {}).get("class") != "ok" or "premises" not in r["model"] else
+                        ("/ints-theorem-premises-hold" if r["model"]["premises"] else "/ints-theorem-premises-not-met")),
+    "compare": lambda kind, case, impl, model: _strip({"premises"})(kind, case, impl, model),
     "nontrivial": lambda r: (r["model"].get("bytes") or r["model"]).get("class") == "ok",
     "shape": lambda r: r["case"].get("text", r["case"].get("bits")),
     "rule": "I-JSON texts from a structured generator (all Unicode planes incl. names whose UTF-16 order differs from code-point order and "
@@ -66,10 +69,10 @@ PROPS["C05"] = {
             "style, number spelling); a malformed stream; and a separate stream of raw bit patterns. Compared: output bytes of MarshalCanonical on the "
             "text, on the decoded Go value, and of canonicalizing the output again. Non-trivial = accepted input; distinct = distinct input text/bits.",
     "technique": "Lean 4 theorems on the JCS model (sorting, permutation invariance, escaping) + differential correspondence on bytes",
-    "level_text": "Proved in Lean (Lemmas/RoundTrip.lean): the strict reader undoes the printer on every value without numbers, so parsing the RFC 8785 encoding of such a value yields its normal form (canonical_text_reads_back_partial; escapes, nesting and member order included; numbers excluded); the normal form is its own normal form and canonical text is a fixed point of the transformer (normalize_idempotent_partial, transform_fixed_point_partial). Proved in Lean for all values: canonical objects have strictly UTF-16-sorted members and the order is a strict total order on names "
+    "level_text": "Proved in Lean (Props/C05Spelling.lean): texts that differ in insignificant whitespace and in the escape spelling of strings canonicalize to identical bytes (spelling_irrelevant_ints). Proved in Lean (Lemmas/NumInt*.lean, Props/C05Num.lean): an integer below 2^53 in magnitude is printed as its decimal digits (integer_prints_as_digits: IEEE-754 double of the literal, shortest digits, ES6 notation, all by exact Nat arithmetic) and read back as the very literal. Proved in Lean (Lemmas/RoundTrip.lean, RoundTripNum.lean): the strict reader undoes the printer on every value whose numbers are such integers (or that has no numbers), so parsing the RFC 8785 encoding of such a value yields its normal form (canonical_text_reads_back_ints; escapes, nesting and member order included); the normal form is its own normal form, canonicalizing canonical text gives the same text (normalize_idempotent_ints, canonical_text_is_fixed_ints, transform_fixed_point_partial); the driver evaluates the hypothesis on every case (label ints-theorem-premises-hold). Proved in Lean for all values: canonical objects have strictly UTF-16-sorted members and the order is a strict total order on names "
                   "(UTF-16 encoding injective); the canonical form does not depend on input member order (at top level or nested); duplicate names are refused; "
                   "escaping is minimal with the RFC 8785 forms; equivalent values give identical bytes; the ES6 notation table. NOT proved: the parse∘print round trip "
-                  "(fixed point / same value) and shortest-digit correctness of the number formatter; these rest on the correspondence stream, which compares "
+                  "(fixed point / same value) for values with fractions, exponents or integers from 2^53 on, and shortest-digit correctness of the number formatter on those; these rest on the correspondence stream, which compares "
                   "every case's re-canonicalized output and value-route output byte for byte against the implementation.",
     "level_note": "Trusted: Lean kernel; extractor; harness. Model strictness: RFC 8259 grammar (the library also accepts some non-JSON number spellings, outside the "
                   "property's I-JSON quantifier and not generated); inputs with lone surrogates or invalid UTF-8 are out of domain. Inputs capped at 64 KiB.",
@@ -86,7 +89,7 @@ def _c06_property(r):
 
 PROPS["C06"] = {
     "property_check": _c06_property,
-    "theorem_modules": ["Sidetree.Props.C06"],
+    "theorem_modules": ["Sidetree.Props.C06", "Sidetree.Props.C06Num"],
     "prescribes": "Sidetree.Hashing.* (Props.C06: model_multihash_def, valid_iff, code_of_hash, computed_using_iff)",
     "obligations": [{"name": "Shape_Jcs", "facts": "module:Jcs"}, 
         {"name": "C06_supportedCodes", "facts": ["hashSupportedCodes"]},
@@ -101,7 +104,7 @@ PROPS["C06"] = {
             "non-canonicalizable values. Compared: CalculateModelMultihash, IsValidModelMultihash, GetMultihashCode, IsComputedUsingMultihashAlgorithms, docutil.CalculateID. "
             "Every case is non-trivial (each exercises decode + recompute); distinct = distinct (value text, hash, code).",
     "technique": "Lean 4 theorems parametric in the hash family (base64url/varint/multihash round trips by induction) + differential correspondence with real SHA-2",
-    "level_text": "Proved in Lean for every value, hash string and hash family with codes < 2^63 and digests < 2^31 bytes: the model multihash formula and the error for "
+    "level_text": "Proved in Lean (Props/C06Num.lean): two values whose numbers are plain integers below 2^53 with one model hash have the same normal form or the hash family has an explicit collision (same_hash_same_value: canonical bytes determine the value, canonical_bytes_determine_value), and the hash is a function of the normal form (same_value_same_hash). Proved in Lean for every value, hash string and hash family with codes < 2^63 and digests < 2^31 bytes: the model multihash formula and the error for "
                   "unsupported codes; validation succeeds iff the string is the hash computed from a value with the same canonical form under the code in its own prefix "
                   "(or an explicit collision is exhibited); code_of_hash; computed-using iff; everything that validates is a well-formed encoded multihash; "
                   "base64url, varint and multihash decode∘encode = id (unbounded, by induction) and, conversely, every accepted encoded hash is the canonical text of its code and "
@@ -283,7 +286,7 @@ def _c14_property(r):
 
 PROPS["C14"] = {
     "property_check": _c14_property,
-    "theorem_modules": ["Sidetree.Props.C14", "Sidetree.Props.C14General", "Sidetree.Props.C14Ctor"],
+    "theorem_modules": ["Sidetree.Props.C14", "Sidetree.Props.C14General", "Sidetree.Props.C14Ctor", "Sidetree.Props.C14Bytes"],
     "prescribes": "Sidetree.PatchBuild.fromDocument + Sidetree.Composer.applyPatches (Props.C14)",
     "obligations": [
         {"name": "C14_actionConfig", "facts": ["actionConfig"]},
@@ -312,8 +315,10 @@ PROPS["C14"] = {
                   "action's value key, exactly the value it was made from - for the id / URI constructors the list of strings the argument decodes to (newPatch_accessors); and for each "
                   "constructor a valid argument - stated on the argument alone: a non-empty list of valid ids; of URIs that parse and differ; of objects meeting the key / service constraints; "
                   "a replace document with the two allowed members; a non-empty operation list the ietf validator accepts - gives a patch that passes validation (remove_validates, "
-                  "aka_validates, add_keys_validates, add_services_validates, replace_validates, ietf_validates). The bytes round trip rests on the correspondence stream (Go's "
-                  "encoding/json is not modelled beyond values).",
+                  "aka_validates, add_keys_validates, add_services_validates, replace_validates, ietf_validates). Patch -> bytes -> patch (Props/C14Bytes.lean, patch_bytes_roundtrip): the canonical bytes of an acceptable patch whose numbers are plain integers below 2^53 "
+                  "(or that has none) are read back, by the strict reader followed by the acceptance test of FromBytes, as the patch's normal form - same action, the value's normal form, and the "
+                  "same bytes again; a patch already in normal form comes back identical (patch_bytes_roundtrip_normal). With fractions or exponent spellings among the patch values, and for what "
+                  "Go's encoding/json does beyond JSON values, the bytes round trip rests on the correspondence stream.",
     "level_note": "Trusted: Lean kernel; extractor; harness. The round-trip theorem is stated for ordinary member names (the property's quantifier); names that need escaping are covered by the stream since the D30 repair.",
 }
 
@@ -399,7 +404,7 @@ PROPS["C02"] = {
 }
 
 PROPS["C03"] = {
-    "theorem_modules": ["Sidetree.Props.C03"],
+    "theorem_modules": ["Sidetree.Props.C03", "Sidetree.Props.C05Spelling"],
     "prescribes": "Sidetree.Parser.parse (Props.C03.create_self_certifying, suffix_binds, delta_binds)",
     "obligations": _PARSER_OBL + [{"name": "C03_uniqueSuffix", "facts": ["uniqueSuffixCalls"]},
                                   {"name": "C06_validCompare", "facts": ["isValidCompare", "isValidCalls"]}],
@@ -411,7 +416,7 @@ PROPS["C03"] = {
             "first or the second; each in canonical form and two re-spellings (member order at every level, whitespace, escapes, number spellings), and with one field modified "
             "(recovery commitment, anchor origin, type, delta with and without the matching hash). Compared: accept/reject, suffix, id, anchor origin, validator calls.",
     "technique": "Lean 4 theorems (suffix formula, hash binding with explicit collision alternative, member-order invariance) + differential correspondence",
-    "level_text": "Proved in Lean: every accepted create has suffix = model multihash of the re-marshalled suffix data under the first configured algorithm, id = namespace:suffix, and outside "
+    "level_text": "Proved in Lean (Props/C05Spelling.lean, Lemmas/Whitespace.lean, EscapeSpelling.lean): request texts that spell one JSON value with different insignificant whitespace and different escape spellings of strings and member names (numbers: plain integers below 2^53) are parsed to the same operation - same suffix, delta, signed data - for the same size (request_spelling_irrelevant); integer-valued number spellings normalize to the plain integer (Lemmas/NumSpelling.lean, normalize_int_valued). Proved in Lean: every accepted create has suffix = model multihash of the re-marshalled suffix data under the first configured algorithm, id = namespace:suffix, and outside "
                   "batch mode a delta that validates against the recorded delta hash; equal suffixes force equal canonical suffix data, and equal delta hashes equal canonical deltas, or "
                   "an explicit hash collision; the decoding of a create request does not depend on top-level member order. Invariance under whitespace/escape/number spelling of the "
                   "text holds because the decoder reads the parsed value; nested member order rests on the stream.",
@@ -676,7 +681,7 @@ PROPS["C17"] = {
                   "equivalent id of the result; an offline resolution reports published = false and, in its method metadata, exactly the recovery commitment and anchor origin of the suffix data "
                   "embedded in the DID and the update commitment of the embedded delta; the result is the transformation of a state whose document is the composer's result for the embedded "
                   "delta's patches on the empty document, that delta being valid and hash-bound to the embedded suffix data (resolve_is_what_was_created); the DID ProcessOperation returns resolves on the same handler to the very result it returned, for every namespace containing a colon and every create request whose "
-                  "re-marshalled form has no numbers (process_result_resolves: base64url, UTF-8, JSON reader and re-marshalling round trips; the driver evaluates these premises on every "
+                  "re-marshalled form has no numbers other than plain integers below 2^53 (process_result_resolves_ints, Props/C17ProcessNum.lean: base64url, UTF-8, JSON reader, integer printing and re-marshalling round trips; the driver evaluates these premises on every "
                   "process case of the stream), and so does the DID VDR.Create returns (vdr_create_resolves, the same premise on the request the client builds); the model's protocol value equals the literal in config/protocol.go. 'Resolves to a document equivalent to the one supplied' and "
                   "'creation is deterministic' rest on the correspondence (ProcessOperation then ResolveDocument compared in full; VDR.Create repeated).",
     "level_note": "Trusted: Lean kernel; extractor; harness. did-go's document (un)marshalling used by VDR.Create/Read is not modelled: the VDR stream checks the round trip with an oracle "
@@ -812,8 +817,10 @@ PROPS["C08"] = {
                   "(built_create_yields). Update, recover and deactivate requests built by the builders are accepted: without an anchoring window (the Sidetree client never sets one; anchor "
                   "origin absent or a string; protected header names and values plain strings) unconditionally in the inputs (update/recover/deactivate_built_accepted_unwindowed) - "
                   "the read-back of the compact JWS is proved (Lemmas/Framing.lean: three dot-free base64url segments, UTF-8, Go's header marshalling, the JSON reader and RFC 8785 "
-                  "give signModel_reads_back, and decoding the normal form of the signed model yields the signed fields); with a window the same theorems hold under that read-back as "
-                  "an explicit hypothesis (the integer members need the number round trip, which is validated by the stream, not proved). Everything else the parser demands (reveal "
+                  "give signModel_reads_back, and decoding the normal form of the signed model yields the signed fields); with a window whose bounds are below 2^53 in magnitude likewise "
+                  "unconditionally (update/recover/deactivate_built_accepted_windowed, Props/C08Window.lean: the integer members are printed as digits and read back as the same integers - "
+                  "Lemmas/NumInt*.lean, RoundTripNum.lean, FramingNum.lean); for the two bounds +-2^53, which the builders' guard still admits, the read-back stays an explicit hypothesis "
+                  "validated by the stream. The driver evaluates the hypotheses of the windowed theorems on every built step. Everything else the parser demands (reveal "
                   "value, key freshness, delta, hashes, windows) is derived from the builders' own checks. Recover additionally needs update != recovery commitment, which the builder "
                   "does not enforce (known finding D11). Builders refuse equal commitments (create), commitments under another or an unsupported hash algorithm, key reuse (update, "
                   "recover), missing or double content, bad signers. "
